@@ -14,7 +14,10 @@
 EXTENDS Naturals, Sequences, FiniteSets, TLC, Json, IOUtils
 CONSTANTS Export
 
-Firsts == {"authgood", "authbad", "authundecodable", "authstatus", "call", "push", "reply", "type9", "garbage", "truncated", "silence"}
+\* "authpanic": a token that makes the checker function panic; "authsetidbad": a bad token for which the checker first
+\* assigns the session id (Session.SetID is exposed to the checker) and then rejects
+Firsts == {"authgood", "authbad", "authundecodable", "authstatus", "call", "push", "reply", "type9", "garbage", "truncated", "silence",
+           "authpanic", "authsetidbad", "authsetidgood"}
 Cfgs == [first : Firsts, pipe : {"none", "call", "push", "callpush"}, timing : {"atonce", "stepwise"},
          hookpos : {"none", "before", "after"}, hookverdict : {"ok", "reject"}]
 CfgOK(c) == (c.hookpos = "none" => c.hookverdict = "ok")
@@ -33,10 +36,10 @@ Hook1 ==  \* the other accept hook, when it is registered before the checker
        ELSE pc' = "checker" /\ UNCHANGED <<cfg, status, exchanged, authok, indexed, reader, handled, closed, replies>>
 Checker == \* PreReceive of exactly one frame, verdict, AUTH_REPLY
   /\ pc = "checker" /\ exchanged' = exchanged + 1
-  /\ authok' = (cfg.first = "authgood")
+  /\ authok' = (cfg.first \in {"authgood", "authsetidgood"})
   /\ replies' = IF cfg.first \in {"garbage", "truncated", "silence"} THEN replies      \* nothing decodable arrived: the reply may not even be writable
-                ELSE Append(replies, IF cfg.first = "authgood" THEN "authreply-ok" ELSE "authreply-err")
-  /\ IF cfg.first = "authgood"
+                ELSE Append(replies, IF cfg.first \in {"authgood", "authsetidgood"} THEN "authreply-ok" ELSE "authreply-err")
+  /\ IF cfg.first \in {"authgood", "authsetidgood"}
        THEN pc' = "hook2" /\ UNCHANGED <<status, closed>>
        ELSE Reject
   /\ UNCHANGED <<cfg, indexed, reader, handled>>
